@@ -37,7 +37,8 @@ def run_mypy(index) -> MypyResult:
     opts.warn_unreachable = False
     opts.ignore_missing_imports = True
     opts.follow_imports = "silent"
-    opts.show_error_codes = True
+    if hasattr(opts, 'hide_error_codes'):
+        opts.hide_error_codes = False
     opts.mypy_path = [os.path.join(index.root, "typestubs")]
     pkg = index.pkgdir
     cwd = os.getcwd()
